@@ -446,4 +446,7 @@ def run(p, rep, tier):
     r4(p, rep)
     r5(p, rep)
     r6(p, rep)
+    from . import c06 as _c06
+
+    _c06.r6(p, rep, parts=("reads-only",))  # non-tensor arguments (sizes, options) pass through the cache-key freezing
     rep.info["undecided"] = "aliasing performed inside framework primitives (whether a reshape returned a view) - only relevant for the documented *_at exception, because R1-R3 show no other in-place operation can be emitted"
